@@ -21,13 +21,67 @@ def loop_templates():
     T.append(("loop_map_garbage", P, "i32", "s := i32(0)\n\tfor i := i32(0); i < n; i++ {\n\t\tm := make(map[i32]i32)\n\t\tm[x] = i\n\t\tm[i] = x\n\t\tdelete(m, x)\n\t\ts += i32(len(m))\n\t}\n\treturn s"))
     T.append(("loop_map_insert_delete_same_key", P, "i32", "m := make(map[i32]i32)\n\tfor i := i32(0); i < n; i++ {\n\t\tm[x] = i\n\t\tdelete(m, x)\n\t}\n\treturn i32(len(m))"))
     T.append(("loop_slice_reassign", P, "i32", "b := []i32{x}\n\tfor i := i32(0); i < n; i++ {\n\t\tb = []i32{b[0] + i, i}\n\t}\n\treturn b[0]"))
+    T.append(("loop_make_strings_variable_len", P, "i32", "s := i32(0)\n\tfor i := i32(0); i < n; i++ {\n\t\tk := int(i%3) + 2\n\t\tb := make([]string, k)\n\t\tfor j := 0; j < k; j++ {\n\t\t\tb[j] = string([]byte{byte(x), byte(j)})\n\t\t}\n\t\ts += i32(len(b[k-1]))\n\t}\n\treturn s"))
+    T.append(("loop_append_slices_of_slices", P, "i32", "s := i32(0)\n\tfor i := i32(0); i < n; i++ {\n\t\tb: [][]i32\n\t\tb = append(b, []i32{x}, []i32{i}, []i32{x, i})\n\t\ts += i32(len(b)) + b[2][1]\n\t}\n\treturn s"))
+    T.append(("loop_call_with_tuple_results", P, "i32", "s := i32(0)\n\tfor i := i32(0); i < n; i++ {\n\t\ts += vtPairUser(x + i)\n\t}\n\treturn s"))
+    T.append(("loop_call_with_map_read", P, "i32", "s := i32(0)\n\tfor i := i32(0); i < n; i++ {\n\t\ts += vtMapUser(x, i)\n\t}\n\treturn s"))
+    T.append(("loop_call_with_type_assert", P, "i32", "s := i32(0)\n\tfor i := i32(0); i < n; i++ {\n\t\ts += vtAssertUser(x + i)\n\t}\n\treturn s"))
+    T.append(("loop_range_over_map", P, "i32", "s := i32(0)\n\tfor i := i32(0); i < n; i++ {\n\t\tm := map[i32]string{x: \"a\", i: \"bc\"}\n\t\tfor k, v := range m {\n\t\t\ts += k + i32(len(v))\n\t\t}\n\t}\n\treturn s"))
     T.append(("loop_string_reassign", P, "i32", "t := string([]byte{byte(x)})\n\tfor i := i32(0); i < n; i++ {\n\t\tt = string([]byte{t[0], byte(i)})\n\t}\n\treturn i32(len(t)) + i32(t[0])"))
     return T
 
 
+def ref_templates():
+    """C11: data whose elements own references (slices of slices / strings / pointers, struct fields, closures
+    that escape): the owner is overwritten or goes away while a copy made earlier is still in use"""
+    T = []
+    P = [("x", "i32"), ("y", "i32")]
+    T.append(("ref_copy_nested_slices", P, "i32", "a := [][]i32{{x, 1}, {y, 2}}\n\tb := make([][]i32, 2)\n\tcopy(b, a)\n\ta[0] = nil\n\ta[1] = nil\n\ta = nil\n\tc := []i32{7, 8, 9}\n\treturn b[0][0]*5 + b[1][0]*3 + b[1][1] + c[0]"))
+    T.append(("ref_copy_strings", P, "i32", "a := []string{string([]byte{byte(x), 'p'}), string([]byte{byte(y), 'q'})}\n\tb := make([]string, 2)\n\tcopy(b, a)\n\ta[0] = \"\"\n\ta[1] = \"\"\n\ta = nil\n\tc := string([]byte{'z', 'z', 'z'})\n\treturn i32(b[0][0])*5 + i32(b[1][0])*3 + i32(len(b[0])+len(b[1])+len(c))"))
+    T.append(("ref_copy_pointers", P, "i32", "a := []*vtP{&vtP{x, 1}, &vtP{y, 2}}\n\tb := make([]*vtP, 2)\n\tcopy(b, a)\n\ta[0] = nil\n\ta[1] = nil\n\ta = nil\n\tc := &vtP{5, 6}\n\treturn b[0].x*5 + b[1].x*3 + b[1].y + c.x"))
+    T.append(("ref_append_spread", P, "i32", "a := [][]i32{{x}, {y}}\n\tb := append([][]i32{}, a...)\n\ta[0] = nil\n\ta[1] = nil\n\ta = nil\n\tc := []i32{4}\n\treturn b[0][0]*5 + b[1][0]*3 + c[0]"))
+    T.append(("ref_struct_field_slice", P, "i32", "type box :struct {\n\t\tv: []i32\n\t}\n\tp := box{[]i32{x, y}}\n\tq := p\n\tp = box{}\n\tc := []i32{1, 2}\n\treturn q.v[0]*5 + q.v[1]*3 + c[1]"))
+    T.append(("ref_slice_reslice_outlives", P, "i32", "a := []i32{x, y, 3, 4}\n\tb := a[1:3]\n\ta = nil\n\tc := []i32{9, 9, 9, 9}\n\treturn b[0]*5 + b[1]*3 + c[0]"))
+    T.append(("ref_closure_escapes", P, "i32", "mk := func(s: i32) => func() => i32 {\n\t\tc := s\n\t\treturn func() => i32 {\n\t\t\tc++\n\t\t\treturn c\n\t\t}\n\t}\n\tf := mk(x)\n\tg := mk(y)\n\tf()\n\treturn f()*5 + g()*3 + f()"))
+    T.append(("ref_iface_holds_pointer", P, "i32", "s: vtShape = &vtRect{x, y}\n\tt := s\n\ts = &vtSq{3}\n\tc := &vtRect{1, 1}\n\treturn t.Area()*3 + s.Area() + c.w"))
+    T.append(("ref_range_strings", P, "i32", "a := []string{string([]byte{byte(x)}), string([]byte{byte(y), 'b'})}\n\th := i32(0)\n\tfor i, s := range a {\n\t\ta[i] = \"\"\n\t\tt := string([]byte{'k', 'k'})\n\t\th = h*31 + i32(s[0]) + i32(len(s)) + i32(len(t))\n\t}\n\treturn h"))
+    T.append(("ref_map_value_slices", P, "i32", "m := make(map[i32][]i32)\n\tm[1] = []i32{x}\n\tm[2] = []i32{y}\n\tv := m[1]\n\tdelete(m, 1)\n\tm[3] = []i32{8}\n\treturn v[0]*5 + m[2][0]*3 + m[3][0]"))
+    return T
+
+
+C12_DECLS = """
+func vtPair(v: i32) => (string, []i32) {
+	return string([]byte{byte(v), 'n'}), []i32{v, v + 1}
+}
+
+func vtPairUser(v: i32) => i32 {
+	name, k := vtPair(v)
+	return i32(len(name)) + k[1]
+}
+
+func vtMapUser(x, i: i32) => i32 {
+	m := map[i32]string{x: "one", i: "three"}
+	v, ok := m[x]
+	if ok {
+		return i32(len(v))
+	}
+	return 0
+}
+
+func vtAssertUser(v: i32) => i32 {
+	s: vtShape = &vtSq{v}
+	q, ok := s.(*vtSq)
+	if ok {
+		return q.s
+	}
+	return 0
+}
+"""
+
+
 def gen(tier):
     # templates with a restricted domain (division, recursion depth) do not allocate and are left out
-    A = [(t[0], t[1], t[2], t[3]) for t in c01gen.aggregate_templates() if not t[5]]
+    A = [(t[0], t[1], t[2], t[3]) for t in c01gen.aggregate_templates() if not t[5]] + ref_templates()
     K = c13gen.kinds()
     M = []
     for kn in (["i32", "str"] if tier == "quick" else ["i32", "str", "i64", "struct", "iface"]):
@@ -38,7 +92,7 @@ def gen(tier):
     only = os.environ.get("VERIF_ONLY")
     if only:
         A, M, L = [[t for t in X if any(o in t[0] for o in only.split(","))] for X in (A, M, L)]
-    wa = ["// generated by /verif/lib/c11gen.py\n" + c01gen.WA_DECLS + c13gen.WA_DECLS]
+    wa = ["// generated by /verif/lib/c11gen.py\n" + c01gen.WA_DECLS + c13gen.WA_DECLS + C12_DECLS]
     for name, params, res, body in A + M + L:
         ps = ", ".join("%s: %s" % (p, t) for p, t in params)
         wa.append("#wa:export t_%s\nfunc t_%s(%s) => %s {\n\t%s\n}\n" % (name, name, ps, res, body))
